@@ -119,6 +119,9 @@ struct EmitContext {
     /// Unqualified flow/stitch target names mapped to their absolute path
     /// when the name is unique across the story.
     unqualified_flow_targets: BTreeMap<String, String>,
+    /// CONST declarations, for expressions that are only parsed at emission
+    /// time (choice text, tags, strings).
+    consts: std::collections::HashMap<String, Expression>,
 }
 
 fn register_unqualified_flow_target(
@@ -411,6 +414,7 @@ impl EmitContext {
             qualified_choice_labels,
             function_ref_param_positions,
             unqualified_flow_targets,
+            consts: story.consts.clone(),
         }
     }
 
